@@ -319,6 +319,29 @@ def replay_multi(ws: List[dict]) -> List[Tuple[str, dict, str]]:
                           f"{f}: multi-graph {a[f]} != sum of single-graph calls {[s[f] for s in singles]}"))
     if a["maxd"] != max(s["maxd"] for s in singles) or a["graphs"] != len(ws):
         fails.append(("CountersMatchWork", {"cause": "per-graph max"}, f"max_delta/graphs_touched {a['maxd']}/{a['graphs']} vs singles {[s['maxd'] for s in singles]}"))
+    # the same multi-graph call twice with the stage cache ON: the cache holds per-graph results, so a warm call reports
+    # exactly what the cold call reported (each touched node once per graph)
+    if not fails and len(ws) > 1:
+        t1m = _repo_t1()
+        for attr in ("_T1_CACHE", "_T1_CACHE_CFG", "_T1_CACHE_KIND"):
+            setattr(t1m, attr, None)
+        try:
+            store, text = build_store(ws, gids)
+            state = {"store": store, "active_graphs": list(gids)}
+            ctxw = build_ctx(ws[0]["cp"], ws[0]["grid"], 1)
+            ctxw.cfg.t1["cache"] = {"enabled": True, "max_entries": 64, "ttl_s": 3600}
+            t1m.t1_propagate(ctxw, state, text)
+            warm = alpha(t1m.t1_propagate(ctxw, state, text))
+            for f in ("touched", "pops", "iters", "props", "rhits", "lhits", "nhits"):
+                if warm[f] != a[f]:
+                    fails.append(("TouchedOnceSortedPerGraph" if f == "touched" else "CountersMatchWork", {"cause": "warm stage cache, several graphs", "field": f},
+                                  f"{f}: second call with the stage cache on {warm[f]!r}, cold call {a[f]!r}"))
+                    break
+        except Exception as e:  # noqa: BLE001
+            fails.append(("Construct", {"cause": type(e).__name__, "driver": "warm"}, f"warm multi-graph call raised {type(e).__name__}: {e}"))
+        finally:
+            for attr in ("_T1_CACHE", "_T1_CACHE_CFG", "_T1_CACHE_KIND"):
+                setattr(t1m, attr, None)
     # the same call through the stage's parallel per-graph driver (perf.parallel.t1): the spreading rule and the
     # budgets are per graph whichever driver runs the graphs
     if not fails and len(ws) > 1:
